@@ -405,8 +405,14 @@ def classify_stream_diff(ref, got):
         return "output-stream-unparseable", f"{type(e).__name__}: {e}"
     if len(a) != len(b):
         return "segment-count", f"{len(a)} segments in, {len(b)} out"
+    def no_lengths(h):
+        ai = ArchiveInfo.FromString(h)
+        for mi in ai.message_infos:
+            mi.length = 0
+        return ai.SerializePartialToString()
+
     for i, ((ha, pa), (hb, pb)) in enumerate(zip(a, b)):
-        if ha != hb:
+        if ha != hb and (pa == pb or no_lengths(ha) != no_lengths(hb)):
             return "header-bytes", f"segment {i}: header {ha[:48].hex()} -> {hb[:48].hex()} (lengths {len(ha)} -> {len(hb)})"
         for j, (x, y) in enumerate(zip(pa, pb)):
             if x != y:
@@ -492,6 +498,11 @@ def eval_roundtrip(src):
         res.append(({"mechanism": "is_iwa_file", "class": "disagrees-on-input", "source": kind},
                     f"is_iwa_file -> {s}, independent chunk walker says {'well-formed' if framing_ok(blob) else 'malformed'} ({len(blob)} bytes)"))
     if ref["malformed"]:
+        if kind == "gen":  # written by Document.save, i.e. an encoder output: it must obey the container rules
+            res.append(({"mechanism": "document-save", "class": "container:" + ref["malformed"].split(":")[0], "source": kind},
+                        f"IWA member written by Document.save is not well-formed: {ref['malformed']}"))
+        elif kind == "synth":
+            raise HarnessError(f"synthetic archive {src} is not well-formed: {ref['malformed']}")
         return res, info
     stream = ref["stream"]
     info.update(ref["stats"])
@@ -964,12 +975,13 @@ def main():
             continue
         if info.get("malformed"):
             run.count("members_not_well_formed_excluded")
-            run.outcome("excluded: " + info["malformed"][:40])
+            run.outcome("excluded, not well-formed: " + info["malformed"].split(":")[0])
             continue
         if info.get("skipped"):
             run.count("members_with_unmapped_message_type_excluded")
             continue
         run.count("well_formed_archives")
+        run.outcome(f"round trip evaluated: {src[0]}, {'multi' if info['in_chunks'] > 1 else 'single'}-chunk input")
         for k in ("segments", "messages", "multi", "merge", "unknown"):
             run.count({"segments": "segments_total", "messages": "messages_total", "multi": "multi_message_segments",
                        "merge": "merge_patch_messages", "unknown": "messages_with_unknown_fields"}[k], info[k])
@@ -1044,8 +1056,13 @@ def main():
     run.sample({"case": ["rechunk", big[0], family(big[1])[:2], [0, 1, 0]], "stream_bytes": big[1]})
     run.sample({"case": enc[0]})
     run.sample({"case": enc[-1]})
-    run.outcome("held", max(0, c["evaluations"] - run.n_failures))
-    run.outcome("skipped: ambiguous stored piece", c["rechunk_skipped_ambiguous_stored_piece"])
+    for lay in ("compressed", "stored", "mixed"):
+        run.outcome(f"re-chunking evaluated: {lay} pieces", c["rechunk_" + lay])
+    run.outcome("re-chunking skipped: ambiguous stored piece", c["rechunk_skipped_ambiguous_stored_piece"])
+    run.outcome("damaged framing judged by sniffer", c["sniff_damaged_variants"])
+    run.outcome("encoder-side edit/create evaluated", c["edit_cases"] + c["create_cases"])
+    if run.n_failures:
+        run.outcome("failed", run.n_failures)
 
     want_synth = {s for s in SIZES if s > 1}
     run.floor(">= 5000 fixture IWA members enumerated and >= 60 fixtures (incl. a package folder and the template)",
